@@ -12,7 +12,7 @@ import r_play  # noqa: E402
 
 
 # --------------------------------------------------------------------------
-def expected_transcripts(boards, specs, result):
+def expected_transcripts(boards, specs, result, partial=False):
     """what each bundled client's connection must receive, computed from the boards, the seats' own decisions
     (the messages the clients sent) and the rules; specs = client list in arrival order, result = netrec Session result"""
     import json
@@ -37,7 +37,8 @@ def expected_transcripts(boards, specs, result):
         raise AssertionError(f'{p}: no further matching message sent')
     vul_txt = {1: 'Neither', 2: 'N/S', 3: 'E/W', 4: 'Both'}
     logs = []
-    for bi, b in enumerate(boards):
+
+    def one_board(bi, b):
         for p in Player:
             exp[p].append('Start of board')
             exp[p].append(f'Board number {bi + 1}. Dealer {b.dealer.formal_name}. {vul_txt[b.vul.value]} vulnerable.')
@@ -91,6 +92,13 @@ def expected_transcripts(boards, specs, result):
             rec.update(contract=str(contract), declarer=str(declarer), tricks=ref.taken[1 if declarer.value % 2 else 2],
                        play=[(str(l), [str(c) for c in cs]) for l, cs in tricks], contract_obj=contract)
         logs.append(rec)
+    for bi, b in enumerate(boards):
+        try:
+            one_board(bi, b)
+        except AssertionError:
+            if not partial:
+                raise
+            return exp, logs, conn_of        # what the seats were entitled to as far as their own messages go
     for p in Player:
         exp[p].append('End of session')
     return exp, logs, conn_of
@@ -107,7 +115,19 @@ def check_session(name, seed=0, result=None):
     r = result or sessions.record(name, seed)
     bad = []
     if not r.get('completed'):
-        return [('C09', f'session {name} did not complete')], r
+        # the session stopped early.  What was sent BEFORE it stopped is still compared with the entitlement: a message that
+        # differs is a finding of its own (it may well be why a client gave up); a mere shortfall is C09's subject.
+        try:
+            exp, _, conn_of = expected_transcripts(boards, specs, r, partial=True)
+            for p, i in conn_of.items():
+                got = [m.rstrip('\r\n') for m in r['transcripts'][f'conn{i}']['server_sent']]
+                for k, (a, b_) in enumerate(zip(got, exp[p])):
+                    if a != b_ and not a.upper().startswith('ERROR') and a not in ('illegal bid', 'error detected'):
+                        bad.append(('C10', f'{p}: message {k} received {a!r} but entitled to {b_!r} (the session stopped later)'))
+                        break
+        except Exception:
+            pass
+        return bad + [('C09', f'session {name} did not complete')], r
     try:
         exp, logs, conn_of = expected_transcripts(boards, specs, r)
     except AssertionError as e:
